@@ -42,6 +42,9 @@ for c in checks:
     ls = [l[:300] for l in outc.splitlines()]
     res["checks"][c] = {"exit": rcc, "lines": ([l for l in ls if l.startswith(("VIOLATION", "OK "))] + [l for l in ls if l.startswith("[check] broken")])[:6],
                         "known_finding_lines": len([l for l in ls if l.startswith("KNOWN-FINDING")])}
+# the build directory of the alt-tree runs (lib/vcheck.py: build/alt/<hash of the tree path>)
+import hashlib
+shutil.rmtree(os.path.join(V, "build", "alt", hashlib.sha256(os.path.realpath(wt).encode()).hexdigest()[:10]), ignore_errors=True)
 dst = os.path.join(V, "seeded", name)
 os.makedirs(dst, exist_ok=True)
 for f in os.listdir(demo):
